@@ -528,8 +528,17 @@ func (u *Unit) applyContract(s *State, f *Frame, x ssa.Value, callee *ssa.Functi
 	if c.Function && len(rvals) >= 1 {
 		// deterministic pure function: each result is an uninterpreted function of the arguments and
 		// of the memory reachable from them (same term for equal arguments and unchanged memory)
+		fs := s
+		if c.Allocates {
+			// the function is applied to the memory as it was BEFORE the call (the call itself only adds
+			// fresh objects), so that two calls on unchanged memory give the same term
+			fs = &State{Heaps: map[string]*Term{}, Entry: s.Entry, Alloc: old.Alloc, Globals: s.Globals}
+			for k, h := range old.Heaps {
+				fs.Heaps[k] = h
+			}
+		}
 		for i := range rvals {
-			if ft := u.functionApp(s, callee, args, i); ft != nil && rvals[i].T != nil && ft.Sort == rvals[i].T.Sort {
+			if ft := u.functionApp(fs, callee, args, i); ft != nil && rvals[i].T != nil && ft.Sort == rvals[i].T.Sort {
 				s.assume(Eq(rvals[i].T, ft))
 			}
 		}
